@@ -28,10 +28,11 @@ NumOf(l) == CASE l = "1" -> 1 [] l = "2" -> 2 [] l = "3" -> 3 [] l = "4" -> 4 []
 IsNum(l) == NumOf(l) > 0
 EvVocab == {<<k, l>> : k \in {"ref", "def"}, l \in Labels} \cup (IF WithHr THEN {<<"hr", "-">>} ELSE {})
            \cup (IF WithHead THEN {<<"head", l>> : l \in {x \in Labels : ~IsNum(x)}} ELSE {})
-           \cup (IF WithNested THEN {<<k, l>> : k \in {"qdef", "nref", "dref"}, l \in Labels} ELSE {})
+           \cup (IF WithNested THEN {<<k, l>> : k \in {"qdef", "nref", "dref", "ddef"}, l \in Labels} ELSE {})
 IsRefEv(e) == e[1] \in {"ref", "nref"}
-IsDefEv(e) == e[1] \in {"def", "qdef"}
-WellPlaced(s) == \A k \in 1..Len(s) : s[k][1] = "dref" => (k > 1 /\ s[k - 1][1] = "def")
+IsDefEv(e) == e[1] \in {"def", "qdef", "ddef"}
+(* "ddef": a definition written INSIDE the body of the definition just before it (a footnote of a footnote) *)
+WellPlaced(s) == \A k \in 1..Len(s) : s[k][1] \in {"dref", "ddef"} => (k > 1 /\ s[k - 1][1] = "def")
 Arrangements == {s \in UNION {[1..n -> EvVocab] : n \in 0..MaxEv} : WellPlaced(s)}
 
 VARIABLES evs, sort, trans,     \* the input: arrangement, footnote_sort, footnote_transition
@@ -63,8 +64,10 @@ RenderDRef == /\ pc = "render" /\ pos <= Len(evs) /\ evs[pos][1] = "dref"
               /\ refs' = IF (pos - 1) \in dupw THEN refs ELSE Append(refs, [l |-> evs[pos][2], at |-> pos])
               /\ pos' = pos + 1
               /\ UNCHANGED <<evs, sort, trans, pc, defs, dupw, autos, num, unrefw, final>>
+Ghost(k) == evs[k][1] = "ddef" /\ (k - 1) \in dupw          \* written inside a body that was dropped
 RenderDef == /\ pc = "render" /\ pos <= Len(evs) /\ IsDefEv(evs[pos])
-             /\ IF evs[pos][2] \in DefLabels                    \* target in document.nameids
+             /\ IF Ghost(pos) THEN UNCHANGED <<defs, autos, num, dupw>>
+                ELSE IF evs[pos][2] \in DefLabels                    \* target in document.nameids
                 THEN dupw' = dupw \cup {pos} /\ UNCHANGED <<defs, autos, num>>
                 ELSE /\ defs' = Append(defs, [l |-> evs[pos][2], at |-> pos])
                      /\ autos' = IF IsNum(evs[pos][2]) THEN autos ELSE Append(autos, Len(defs) + 1)
@@ -114,6 +117,7 @@ Original == [k \in 1..Len(evs) |->
                IF evs[k][1] = "ref" THEN <<"p", k>>
                ELSE IF evs[k][1] = "nref" THEN <<"n", k>>
                ELSE IF evs[k][1] = "dref" THEN <<"x", k>>                  \* no block of its own: it travels with its definition
+               ELSE IF evs[k][1] = "ddef" THEN <<"x", k>>                  \* written inside another definition: no top-level block where it stands
                ELSE IF evs[k][1] = "qdef" THEN <<"q", k, IF k \in dupw THEN "warn" ELSE "fn">>     \* the quote and what it holds
                ELSE IF evs[k][1] = "hr" THEN <<"h", k>>
                ELSE IF evs[k][1] = "head" THEN <<"s", k>>
@@ -145,8 +149,13 @@ RefView == [r \in 1..Len(refs) |->
 
 (************************************ S ************************************************)
 (* declaratively, from the arrangement alone *)
-SDefAt == {k \in 1..Len(evs) : IsDefEv(evs[k]) /\ \A j \in 1..(k - 1) : ~(IsDefEv(evs[j]) /\ evs[j][2] = evs[k][2])}   \* (a heading is no definition)
-SDupAt == {k \in 1..Len(evs) : IsDefEv(evs[k])} \ SDefAt
+RECURSIVE SKept(_)
+(* the definitions that are kept: the first of each label, among those that exist (a ddef exists iff its host is kept) *)
+SExists(k) == evs[k][1] # "ddef" \/ SKept(k - 1)
+SKept(k) == /\ IsDefEv(evs[k]) /\ SExists(k)
+            /\ \A j \in 1..(k - 1) : ~(IsDefEv(evs[j]) /\ evs[j][2] = evs[k][2] /\ SExists(j))
+SDefAt == {k \in 1..Len(evs) : SKept(k)}   \* (a heading is no definition)
+SDupAt == {k \in 1..Len(evs) : IsDefEv(evs[k]) /\ SExists(k)} \ SDefAt
 SRefAt(l) == {k \in 1..Len(evs) : evs[k][2] = l /\ (IsRefEv(evs[k]) \/ (evs[k][1] = "dref" /\ (k - 1) \in SDefAt))}
 KeepFirst == Done => /\ {defs[d].at : d \in 1..Len(defs)} = SDefAt     \* first definition kept, no text lost
                      /\ dupw = SDupAt                                     \* exactly one warning per duplicate
